@@ -3,7 +3,7 @@ PROP = dict(
     coq_header='From LC Require Import Lib.Bytes Model.StageLine Model.StageDoc Model.StageWild Model.StageWildDoc '
                'Model.Recipe Model.RecipeDoc Model.Compress Cases.C17.\nOpen Scope string_scope.\n',
     case_type='C17.case', verdict='C17.verdict', explain='C17.model',
-    rule='five case kinds per 20 generated cases: 2 cells of the type x option matrix (6 types x 7 options, every cell '
+    rule='seven case kinds per 20 generated cases: 2 cells of the type x option matrix (6 types x 7 options, every cell '
          'at least twice per quick run, valid value, random quoting style); 6 structured add-files lines from the '
          'documented grammar (all types incl. unknown ones, names with spaces/quotes/backslashes/tabs/UTF-8/%-verbs/'
          'escaped and wildcard asterisks, 0..5 options with valid, boundary and invalid values, bare/single/double '
